@@ -183,7 +183,35 @@ Definition leaf_head (mainT subT : str) (params : list (str * str)) (cid cdesc e
 Definition single_structure mainT subT params cid cdesc enc size lines : str :=
   [LP] ++ join (leaf_head mainT subT params cid cdesc enc size lines ++ [NIL; NIL; NIL]) [SP] ++ [RP].
 
-(** disposition list of buildPartStructure: NIL or (TYPE params) *)
+(** BuildBodyStructure, non-multipart branch: everything after the parameter
+    list, computed from the raw message as the Go code does (extractHeader for
+    Content-ID / Content-Description / Content-Transfer-Encoding, default
+    "7BIT", upper-cased; body after the first CRLFCRLF, or LFLF since 3b9f4c2;
+    line count for TEXT). *)
+Definition bs_body (raw : str) : str :=
+  match index raw (crlf ++ crlf) with
+  | Some i => skipn (i + 4) raw
+  | None => match index raw [LF; LF] with
+            | Some i => skipn (i + 2) raw
+            | None => []
+            end
+  end.
+
+Definition bs_encoding (raw : str) : str :=
+  to_upper (match extract_header raw (S_ "Content-Transfer-Encoding") with
+            | [] => S_ "7BIT" | e => e end).
+
+Definition single_tail (raw : str) (is_text : bool) : list str :=
+  [quote_or_nil (extract_header raw (S_ "Content-ID"));
+   quote_or_nil (extract_header raw (S_ "Content-Description"));
+   quote_or_nil (bs_encoding raw);
+   dec (length (bs_body raw))]
+  ++ (if is_text then [dec (count_byte (bs_body raw) LF)] else [])
+  ++ [NIL; NIL; NIL].
+
+(** disposition list of buildPartStructure: NIL or (TYPE params); a
+    Content-Disposition that mime.ParseMediaType rejects arrives here as
+    [Some ([], [])] and is printed (NIL NIL) *)
 Definition disp_list (disp : option (str * list (str * str))) : str :=
   match disp with
   | None => NIL
@@ -249,7 +277,8 @@ Inductive finding :=
 | flag_atom          (* a stored flag containing a parenthesis / quote / brace *)
 | item_suppressed    (* a requested item is not answered because of substring cross-talk *)
 | rfc822_renamed     (* RFC822 is answered under the name BODY[] *)
-| partial_range.     (* <a.b>: origin not reported / range ignored / applied to BODY[TEXT] of another item *)
+| partial_range      (* <a.b>: origin not reported / range ignored / applied to BODY[TEXT] of another item *)
+| disposition_nil.   (* an unparsable Content-Disposition is printed (NIL NIL) *)
 
 Definition clean (s : str) : bool :=
   forallb (fun c => negb (Ascii.eqb c CR) && negb (Ascii.eqb c LF)) s.
@@ -264,3 +293,9 @@ Definition flag_byte (c : ascii) : bool :=
 
 Definition classify_flags (flags : str) : option finding :=
   if forallb flag_byte flags then None else Some flag_atom.
+
+Definition classify_disp (disp : option (str * list (str * str))) : option finding :=
+  match disp with
+  | Some ([], _) => Some disposition_nil
+  | _ => None
+  end.
